@@ -87,6 +87,14 @@ type Env struct {
 	inCommit bool
 	sawPanic bool
 
+	// a reader to be begun INSIDE the commit in progress, from the I/O hook (same goroutine: a deterministic
+	// "reader begins while the writer stands at this call"): at absolute event index midAt, or at the call that
+	// the armed fault fails (midAtFault)
+	midSlot    int
+	midAt      int
+	midAtFault bool
+	commitRW   *rwState
+
 	// fault bookkeeping
 	MetaWrittenInCommit bool     // a meta page write was issued by the commit in progress
 	FailedFinalSync     bool     // the injected failure hit the fdatasync after the meta write
@@ -281,6 +289,13 @@ func (e *Env) onEvent(ev *bolt.VerifEvent) error {
 	if e.FailAt > 0 && e.EventN == e.FailAt && e.FailKinds != "" && !strings.Contains(","+e.FailKinds, ","+fk+",") {
 		e.FailAt++ // not a call of the kinds to fail: the next one is the candidate
 	}
+	willFail := e.FailAt > 0 && e.EventN == e.FailAt
+	if e.inCommit && e.midSlot != 0 && ((e.midAt > 0 && e.EventN >= e.midAt && !e.midAtFault) || (e.midAtFault && willFail)) {
+		metaWrite := ev.Op == bolt.VerifWriteAt && e.PageSize > 0 && ev.Off < int64(2*e.PageSize) // issued under metalock
+		if (kind == "W" && !metaWrite) || kind == "S" || kind == "T" || kind == "GS" {
+			e.beginMidReader(fk)
+		}
+	}
 	if e.FailAt > 0 && e.EventN == e.FailAt {
 		e.Failed = &IOEvent{Kind: kind, Off: ev.Off, Size: ev.Size}
 		e.FailedInTx = e.inCommit
@@ -292,6 +307,44 @@ func (e *Env) onEvent(ev *bolt.VerifEvent) error {
 		return fmt.Errorf("verif: injected failure of I/O event #%d (%s)", e.EventN, kind)
 	}
 	return nil
+}
+
+// beginMidReader begins a read transaction while Commit stands at an I/O call. Before the meta page write it must
+// see the last committed version; after it (the new meta is visible through the map) the committing version.
+func (e *Env) beginMidReader(kind string) {
+	slot := e.midSlot
+	e.midSlot = 0
+	if e.DB == nil || e.RO[slot] != nil {
+		return
+	}
+	tx, err := e.DB.Begin(false)
+	if err != nil {
+		if e.pendingViol == nil {
+			e.pendingViol = Violf("Begin(false) while the writer stands at an I/O call (%s) of its commit: %v", kind, err)
+		}
+		return
+	}
+	id := tx.ID()
+	switch {
+	case id == e.LastTxid:
+		e.RO[slot] = &roState{tx: tx, id: id, m: e.Committed}
+		e.Label("reader-begun-inside-commit-before-meta-write")
+	case e.commitRW != nil && id == e.commitRW.id && e.MetaWrittenInCommit:
+		e.RO[slot] = &roState{tx: tx, id: id, m: e.commitRW.m}
+		e.Label("reader-begun-inside-commit-after-meta-write")
+	default:
+		_ = tx.Rollback()
+		if e.pendingViol == nil {
+			e.pendingViol = Violf("a read transaction begun while the writer stood at call %s of the commit of tx %d carries id %d (last committed %d, meta written: %v)", kind, e.commitRW.id, id, e.LastTxid, e.MetaWrittenInCommit)
+		}
+		return
+	}
+	if kind == "SF" {
+		e.Label("reader-begun-at-final-sync")
+	}
+	if v := e.compareRO(e.RO[slot], "directly after beginning inside a commit (at "+kind+")"); v != nil && e.pendingViol == nil {
+		e.pendingViol = v
+	}
 }
 
 func (e *Env) Mark(kind string, tag int) {
@@ -607,9 +660,20 @@ func (e *Env) apply(op Op) *Violation {
 		e.captureClosed(rw.tx, rw.m, true)
 		e.Mark("commit-start", rw.id)
 		e.MetaWrittenInCommit = false
+		e.commitRW = rw
+		e.midSlot, e.midAt, e.midAtFault = 0, 0, false
+		if op.Tx > 0 && e.RO[op.Tx] == nil {
+			e.midSlot = op.Tx
+			if op.Note == "atfault" {
+				e.midAtFault = true
+			} else {
+				e.midAt = e.EventN + int(op.U)
+			}
+		}
 		e.inCommit = true
 		err := rw.tx.Commit()
 		e.inCommit = false
+		e.midSlot = 0
 		e.WriteTxClosed = true
 		e.LastCommitErr = err
 		if err != nil {
@@ -778,6 +842,9 @@ func (e *Env) FileBytes() []byte {
 	}
 	return b
 }
+
+// FaultArmed reports whether an injected fault is waiting for its call.
+func (e *Env) FaultArmed() bool { return e.FailAt > 0 && e.Failed == nil }
 
 // Model returns the working model of the write transaction.
 func (r *rwState) Model() *model.Bucket { return r.m }
